@@ -204,10 +204,12 @@ func clampIndex(i, lo, hi int64) int64 {
 	return hi
 }
 
+// A binary exposes floor(bits/unit) whole units: a partial trailing unit
+// (byte-unit binary over a bit range that is not a whole number of bytes) is
+// never part of a slice or reachable by an index ("in the binary's own unit").
+// The first build left this case unspecified; seed C09-4 (a slice that returned
+// the receiver with its partial byte) showed what that costs.
 func slice(b *val, a *int64, e *int64) (*val, status) {
-	if !b.whole() {
-		return nil, stUnspec
-	}
 	l := b.units()
 	start, end := int64(0), l
 	if a != nil {
@@ -221,9 +223,6 @@ func slice(b *val, a *int64, e *int64) (*val, status) {
 }
 
 func index(b *val, i int64) (*val, status) {
-	if !b.whole() {
-		return nil, stUnspec
-	}
 	l := b.units()
 	if i < 0 {
 		i += l
@@ -272,9 +271,7 @@ func observe(b *val, what string) (*val, status) {
 		}
 		return numv((b.off + L + u - 1) / u), stOK
 	}
-	if !b.whole() {
-		return nil, stUnspec
-	}
+	// size, length, explode: the whole units (a partial trailing unit does not count)
 	switch what {
 	case "size", "length":
 		return numv(L / u), stOK
